@@ -31,8 +31,10 @@ def parse(text: str, statement_stream_processor: "StatementStreamProcessor", *, 
         pr.visit(_get_grammar().parse(text))  # type: ignore
     except _error.Error as ex:
         # Inject error location. If this exception is being propagated from a recursive instance, it already has
-        # its error location populated, so nothing will happen here.
-        ex.set_error_location_if_unknown(line=pr.current_line_number)
+        # its error location populated, so nothing will happen here. An error that carries the path of another file
+        # but no line (e.g., a dependency that lacks @sealed) must not receive a line number of this file.
+        if ex.path is None:
+            ex.set_error_location_if_unknown(line=pr.current_line_number)
         raise ex
     except parsimonious.ParseError as ex:
         raise DSDLSyntaxError("Syntax error", line=int(ex.line())) from None  # type: ignore
@@ -163,7 +165,8 @@ class _ParseTreeProcessor(parsimonious.NodeVisitor):
             except _error.Error as ex:
                 # The pending attribute is committed here, possibly several lines below its own statement;
                 # a fault in it shall be reported at the line of the attribute, not at the current line.
-                ex.set_error_location_if_unknown(line=self._last_attribute_line_number)
+                if ex.path is None:  # An error located in another file keeps its own location.
+                    ex.set_error_location_if_unknown(line=self._last_attribute_line_number)
                 raise
         self._comment_is_header = False
         self._comment = ""
